@@ -134,6 +134,59 @@ impl Tr {
     }
 }
 
+/// does the sub-tree hold a named capture group?
+fn has_named_capture(h: &Hir) -> bool {
+    match h.kind() {
+        HirKind::Capture(c) => c.name.is_some() || has_named_capture(&c.sub),
+        HirKind::Repetition(r) => has_named_capture(&r.sub),
+        HirKind::Concat(v) | HirKind::Alternation(v) => v.iter().any(has_named_capture),
+        _ => false,
+    }
+}
+
+/// The *skeleton* of the pattern: its structure down to the named groups. Literals are printed as they are, a named group as `(name)`
+/// (its own language goes to `groups`), an optional part as `[…]?`, an alternation with named groups inside as `{…|…}`, and every piece
+/// without a named group inside that is not a plain literal as `<re>` (its language is part of the whole-pattern obligations only).
+fn skeleton(tr: &mut Tr, h: &Hir, top: bool, groups: &mut Vec<(String, String)>) -> Result<String, String> {
+    Ok(match h.kind() {
+        HirKind::Look(Look::Start) if top => "^".to_string(),
+        HirKind::Look(Look::End) if top => "$".to_string(),
+        HirKind::Literal(l) => std::str::from_utf8(&l.0).map_err(|_| "non-UTF-8 literal".to_string())?.to_string(),
+        HirKind::Capture(c) => match &c.name {
+            Some(n) => {
+                let lang = tr.hir(&c.sub, false)?;
+                groups.push((n.to_string(), lang));
+                if has_named_capture(&c.sub) {
+                    format!("({}:{})", n, skeleton(tr, &c.sub, false, groups)?)
+                } else {
+                    format!("({})", n)
+                }
+            }
+            None => skeleton(tr, &c.sub, false, groups)?,
+        },
+        HirKind::Repetition(r) if (r.min, r.max) == (0, Some(1)) && matches!(r.sub.kind(), HirKind::Literal(_)) => {
+            format!("[{}]?", skeleton(tr, &r.sub, false, groups)?)
+        }
+        _ if !has_named_capture(h) => "<re>".to_string(),
+        HirKind::Repetition(r) => {
+            if (r.min, r.max) == (0, Some(1)) {
+                format!("[{}]?", skeleton(tr, &r.sub, false, groups)?)
+            } else {
+                return Err("a named group under a repetition other than `?`".into());
+            }
+        }
+        HirKind::Concat(v) => {
+            let parts: Result<Vec<String>, String> = v.iter().map(|x| skeleton(tr, x, top, groups)).collect();
+            parts?.join("")
+        }
+        HirKind::Alternation(v) => {
+            let parts: Result<Vec<String>, String> = v.iter().map(|x| skeleton(tr, x, false, groups)).collect();
+            format!("{{{}}}", parts?.join("|"))
+        }
+        _ => "<re>".to_string(),
+    })
+}
+
 pub fn run(plan: &Value) -> Value {
     let repo = plan["repo"].as_str().unwrap_or("/repo");
     let file = plan["file"].as_str().unwrap_or("");
@@ -171,9 +224,17 @@ pub fn run(plan: &Value) -> Value {
         Err(e) => return json!({"error": format!("regex-syntax rejects the pattern: {}", e), "pattern": pattern}),
     };
     let mut tr = Tr { clipped: false, notes: vec![] };
+    let mut groups: Vec<(String, String)> = vec![];
+    let skel = skeleton(&mut tr, &hir, true, &mut groups);
+    let (skel, skel_err) = match skel { Ok(s) => (s, String::new()), Err(e) => (String::new(), e) };
+    let groups_json: serde_json::Map<String, Value> = groups.into_iter().map(|(k, v)| (k, Value::String(v))).collect();
+    tr.notes.clear();
     match tr.hir(&hir, true) {
         Ok(smt) => json!({
             "pattern": pattern,
+            "skeleton": skel,
+            "skeleton_error": skel_err,
+            "groups": groups_json,
             "reglan": smt,
             "clipped_above_2ffff": tr.clipped,
             "notes": tr.notes,
